@@ -40,6 +40,10 @@ def run_demo():
         rc, o = sh(f"cargo test --offline -p {crate} --test {f[:-3]} 2>&1 | grep -E 'test result|panicked|FAILED|failed|error' | head -20")
         res[f] = o.strip()
         os.remove(f"{wt}/{tdir}/{f}")
+    # demonstrations with their own driver script
+    if os.path.exists(f"{demo}/run.sh"):
+        rc, o = sh(f"timeout 300 sh {demo}/run.sh 2>&1 | head -80")
+        res["run.sh"] = o.strip()
     # demonstrations made of module directories: every main.aelys below the demo dir
     for root, dirs, files in os.walk(demo):
         if root != demo and "main.aelys" in files:
